@@ -318,7 +318,8 @@ def exec_case(task, cd):
                 started.setdefault(m.group(1), []).append(ev.get('timeout'))
     return dict(exit=r['exit'], exception=r['exception'], verdict=(r['stderr'].splitlines() or [''])[0],
                 stderr=r['stderr'][:600], records=recs, started=started, traced=bool(r.get('trace')),
-                env_changed=r['env_changed'], sandboxes=len(boxes), wall=round(wall, 2), text=text)
+                env_changed=r['env_changed'], sandboxes=len(boxes), wall=round(wall, 2), text=text,
+                events=r.get('trace') or [])
 
 
 # ------------------------------------------------------------------------------------------------ comparison
@@ -459,6 +460,16 @@ def check_cases(ctx, label, cases, obs, retry_pool):
         ctx.count()
         if nontrivial(c):
             ctx.nontrivial(case_key(c))
+    # code -> spec: the executions themselves (run with --keep) are behaviours of PhaseExec
+    from harness import trace_exec
+    items = [dict(id=hist_text(c), events=o['events'], argv=['--keep', 'c.case'], files={'c.case': o.get('text')})
+             for c, o in zip(cases, obs) if o.get('events')]
+    if len(items) > 2500:
+        items = random.Random(ctx.seed + 3).sample(items, 2500)
+    if items:
+        trace_exec.validate(ctx, items, 'settings cases (%s)' % label)
+    for o in obs:
+        o.pop('events', None)
     ctx.cov['traces_validated_against_impl'] += len(cases)
     ctx.cov.setdefault('replay', {})[label] = dict(cases=len(cases), disagreements=reported,
                                                    not_reproduced=len(bad) - reported)
@@ -700,6 +711,9 @@ def sample_of(c, o):
 
 def replay(ctx, rec):
     r = rec['record']
+    if r.get('kind') == 'trace':
+        from harness import trace_exec
+        return trace_exec.replay(ctx, r)
     with ctx.pool(workers=1) as pool:
         o = run_cases(pool, [r['case']], 90, 1)[0]
     clause = compare(r['case'], o)
